@@ -448,6 +448,7 @@ func plan(tier string) []string {
 			out = append(out, fmt.Sprintf("cfg:%d:%d:%d", i, s, n))
 		}
 	}
+	out = append(out, vlib.Chunks("cli", int64(len(cliCases())), 12)...)
 	return out
 }
 
@@ -455,9 +456,15 @@ type kase struct {
 	Config config       `json:"config"`
 	Devs   []vsched.Dev `json:"schedule"`
 	Desc   []string     `json:"trace,omitempty"`
+	CLI    *cliCase     `json:"cli,omitempty"` // a command-line case instead of a schedule
 }
 
 func run(tier, unit string, r *vlib.Rec) {
+	if strings.HasPrefix(unit, "cli:") {
+		_, lo, hi := vlib.ParseChunk(unit)
+		runCLI(r, lo, hi)
+		return
+	}
 	p := strings.Split(unit, ":")
 	ci, _ := strconv.Atoi(p[1])
 	shard, _ := strconv.Atoi(p[2])
@@ -537,6 +544,9 @@ var lastRet bool
 func replay(cs json.RawMessage) (string, string) {
 	var k kase
 	json.Unmarshal(cs, &k)
+	if k.CLI != nil {
+		return judgeCLI(*k.CLI)
+	}
 	f := computeFacts(k.Config)
 	out, obs, ret := execute(k.Config, k.Devs)
 	var sigs []string
